@@ -15,6 +15,11 @@ package util
 //@   trusted unsafe re-view of the same bytes
 //@   ensures len(result) == len(b) / 8
 //@   assigns nothing
+//@ func Bytes2BooleanSlice
+//@   mode any
+//@   trusted unsafe re-view of the same bytes
+//@   ensures len(result) == len(b)
+//@   assigns nothing
 //@ func Bytes2Int64Slice
 //@   mode any
 //@   trusted unsafe re-view of the same bytes
